@@ -342,7 +342,7 @@ fn resolve(w: &World, ri: usize, path: &[String]) -> Option<(Vec<String>, Tgt)> 
         }
     }
     let t = match &cur {
-        Out::YText(t) => Tgt::Text(t.get_string(&txn).chars().count() as u32),
+        Out::YText(t) => Tgt::Text(World::text_units(&txn, t)),
         Out::YArray(a) => Tgt::Array(a.len(&txn)),
         Out::YMap(m) => {
             let mut ks: Vec<String> = m.keys(&txn).map(|k| k.to_string()).collect();
